@@ -96,7 +96,7 @@ def run(ctx):
         st, msg, detail = min(members, key=lambda m: (len(m[0]["enc"]), codec.depth(m[0]["ty"]), m[0]["pv"], codec.case_id(m[0])))
         pvs = sorted({v for m in members for v in codec.SAME_LAYOUT[m[0]["pv"]]})
         ctx.violation("%s; %d cases on pv %s; smallest: %s value=%s %s"
-                      % (msg, len(members), pvs, codec.cql_name(st["ty"]), st["val"], detail),
+                      % (msg, len(members), pvs, codec.cql_name(st["ty"]), st.get("big") or st["val"], detail),
                       replay={"state": st, "cases": len(members), "versions": pvs}, signature=sig)
     ctx.assumptions += [SCOPE, "equality = same Python type and same content as the object Norm(v) denotes "
                                "(Decimal: same digits and exponent; datetime: naive UTC)"]
